@@ -121,3 +121,81 @@ pub fn scratch_key(salt: u64, label: u64) -> Pubkey {
     let mut r = Rng::new(salt ^ label.wrapping_mul(0xA24BAED4963EE407));
     Pubkey::new_from_array(r.bytes32())
 }
+
+// ---- Token-2022 ---------------------------------------------------------------------------------
+
+use spl_token_2022::extension::{BaseStateWithExtensions, ExtensionType, StateWithExtensions};
+
+/// Token-2022 mint, optionally with a TransferFeeConfig (basis points, maximum fee)
+pub fn create_mint_2022(l: &mut Ledger, payer: &Pubkey, mint: &Pubkey, authority: &Pubkey, decimals: u8, fee: Option<(u16, u64)>, freeze: Option<&Pubkey>) {
+    let mut exts = Vec::new();
+    if fee.is_some() {
+        exts.push(ExtensionType::TransferFeeConfig);
+    }
+    let len = ExtensionType::try_calculate_account_len::<spl_token_2022::state::Mint>(&exts).unwrap();
+    let mut ixs = vec![ix::sys_create_account(payer, mint, rent_min(len), len as u64, &ix::tok22())];
+    if let Some((bps, max)) = fee {
+        ixs.push(ix::from_sol(
+            spl_token_2022::extension::transfer_fee::instruction::initialize_transfer_fee_config(&ix::tok22(), mint, Some(authority), Some(authority), bps, max).unwrap(),
+        ));
+    }
+    ixs.push(ix::from_sol(spl_token_2022::instruction::initialize_mint2(&ix::tok22(), mint, authority, freeze, decimals).unwrap()));
+    must(l, ixs, "create_mint_2022");
+}
+
+/// token account for any mint (SPL Token or Token-2022 with the extensions the mint requires)
+pub fn create_token_account_any(l: &mut Ledger, payer: &Pubkey, acct: &Pubkey, mint: &Pubkey, owner: &Pubkey) {
+    let prog = l.get(mint).map(|a| a.owner).unwrap_or(ix::tok());
+    if prog == ix::tok() {
+        create_token_account(l, payer, acct, mint, owner);
+        return;
+    }
+    let len = {
+        let data = l.data(mint).unwrap();
+        let st = StateWithExtensions::<spl_token_2022::state::Mint>::unpack(data).unwrap();
+        let mint_exts = st.get_extension_types().unwrap();
+        let req = ExtensionType::get_required_init_account_extensions(&mint_exts);
+        ExtensionType::try_calculate_account_len::<spl_token_2022::state::Account>(&req).unwrap()
+    };
+    let ixs = vec![
+        ix::sys_create_account(payer, acct, rent_min(len), len as u64, &ix::tok22()),
+        ix::from_sol(spl_token_2022::instruction::initialize_account3(&ix::tok22(), acct, mint, owner).unwrap()),
+    ];
+    must(l, ixs, "create_token_account_2022");
+}
+
+/// transfer-fee parameters in force for `mint` at `epoch`: (basis points, maximum fee); None for mints without the extension
+pub fn transfer_fee_params(l: &Ledger, mint: &Pubkey, epoch: u64) -> Option<(u16, u64)> {
+    let a = l.get(mint)?;
+    if a.owner != ix::tok22() {
+        return None;
+    }
+    let st = StateWithExtensions::<spl_token_2022::state::Mint>::unpack(&a.data).ok()?;
+    let cfg = st.get_extension::<spl_token_2022::extension::transfer_fee::TransferFeeConfig>().ok()?;
+    let f = cfg.get_epoch_fee(epoch);
+    Some((u16::from(f.transfer_fee_basis_points), u64::from(f.maximum_fee)))
+}
+
+/// the SPL definition of the fee on a transfer of `amount` (trusted definition of g in C16)
+pub fn transfer_fee_of(l: &Ledger, mint: &Pubkey, epoch: u64, amount: u64) -> u64 {
+    let Some(a) = l.get(mint) else { return 0 };
+    if a.owner != ix::tok22() {
+        return 0;
+    }
+    let Ok(st) = StateWithExtensions::<spl_token_2022::state::Mint>::unpack(&a.data) else { return 0 };
+    match st.get_extension::<spl_token_2022::extension::transfer_fee::TransferFeeConfig>() {
+        Ok(cfg) => cfg.calculate_epoch_fee(epoch, amount).unwrap_or(0),
+        Err(_) => 0,
+    }
+}
+
+/// withheld transfer fees recorded on a Token-2022 token account
+pub fn withheld_amount(l: &Ledger, k: &Pubkey) -> u64 {
+    let Some(d) = l.data(k) else { return 0 };
+    for (t, v) in crate::decode::tlv_entries(d) {
+        if t == 2 && v.len() >= 8 {
+            return u64::from_le_bytes(v[..8].try_into().unwrap());
+        }
+    }
+    0
+}
